@@ -389,7 +389,7 @@ func initRegexps() {
 
 	// https://spec.commonmark.org/0.31.2/#uri-autolink
 	uriAutolinkRegexp = regexp.MustCompile(
-		`^<` + scheme + `:[^\x00-\x19 <>]*` + `>`)
+		`^<` + scheme + `:[^\x00-\x20\x7f<>]*` + `>`)
 	// https://spec.commonmark.org/0.31.2/#email-autolink
 	emailAutolinkRegexp = regexp.MustCompile(
 		`^<[a-zA-Z0-9` + emailLocalPuncts + `]+@[a-zA-Z0-9](?:[a-zA-Z0-9-]{0,61}[a-zA-Z0-9])?(?:\.[a-zA-Z0-9](?:[a-zA-Z0-9-]{0,61}[a-zA-Z0-9])?)*>`)
